@@ -141,7 +141,18 @@ def _solve_one(i):
     except z3.Z3Exception as e:
         return (i, "error", time.time() - t0, "z3", str(e), None)
     if r == z3.unknown and not ob.expect_sat and _CFG.get("cvc5", True):
-        # schedule: z3 3 s -> cvc5 (full budget) -> z3 (full budget)
+        # schedule: z3 3 s -> z3 with two other random seeds (3 s each; quantifier instantiation is heuristic and a
+        # different seed often succeeds at once) -> cvc5 (full budget) -> z3 (full budget)
+        for seed in (7, 42):
+            s.set("random_seed", seed)
+            s.set("smt.random_seed", seed) if False else None
+            try:
+                r = s.check()
+            except z3.Z3Exception:
+                r = z3.unknown
+            if r != z3.unknown:
+                break
+    if r == z3.unknown and not ob.expect_sat and _CFG.get("cvc5", True):
         r2, d2 = run_cvc5(s.to_smt2(), max(5, timeout_ms // 1000))
         if r2 == "unsat":
             return (i, "unsat", time.time() - t0, "cvc5", d2, None)
@@ -263,7 +274,8 @@ def _unparse(e):
 
 def nest_arrays(smt2):
     """rewrite z3's multi-index arrays into nested SMT-LIB arrays (cvc5 accepts only those)"""
-    return "\n".join(_unparse(_nest(x)) for x in _parse_sexprs(smt2))
+    out = "\n".join(_unparse(_nest(x)) for x in _parse_sexprs(smt2))
+    return out.replace("(_ int_to_bv ", "(_ int2bv ").replace("ubv_to_int", "bv2nat").replace("(bv2int ", "(bv2nat ")
 
 
 def run_cvc5(smt2, tlimit_s):
